@@ -15,7 +15,7 @@ for sid in sorted(os.listdir(root)):
     if s:
         m['change_summary'] = s['change']
         m['needs_to_manifest'] = s['needs']
-    f = first.get(sid)
+    f = first.get(sid) or {'result': 'caught'}
     if f:
         m['first_evaluation'] = f
     json.dump(m, open(mp, 'w'), indent=1)
